@@ -112,6 +112,12 @@ REL_STATE = 1e-10
 
 
 def jobs(tier):
+    from .. import repotests
+
+    return _jobs(tier) + [repotests.job()]  # + the repository's own tests as a workload for invariant hooks
+
+
+def _jobs(tier):
     if tier == "quick":
         return [
             {"name": "histories", "n": 9000, "eop": "real", "kind": "histories"},
@@ -127,6 +133,12 @@ def jobs(tier):
 
 
 def requirements(tier):
+    from .. import repotests
+
+    return dict(_requirements(tier), **repotests.MIN["C15"])
+
+
+def _requirements(tier):
     q = tier == "quick"
     req = {f"op:{o}": (100 if q else 2000) for o in OPS}
     req.update({
